@@ -409,12 +409,9 @@ func (p *textProgressBar) getProgressBar(length int) string {
 	totalSize := length - 2
 	fullSize := totalSize
 	if p.fileSize != 0 {
-		fullSize = int(math.Round((float64(totalSize) * float64(p.fileStep)) / float64(p.fileSize)))
-		if fullSize < 0 {
-			fullSize = 0
-		} else if fullSize > totalSize {
-			fullSize = totalSize
-		}
+		// clamp before converting: a huge ratio does not fit into an int
+		full := math.Round((float64(totalSize) * float64(p.fileStep)) / float64(p.fileSize))
+		fullSize = int(math.Max(0, math.Min(float64(totalSize), full)))
 	}
 	emptySize := totalSize - fullSize
 	if p.colorA == nil || p.colorB == nil {
